@@ -285,6 +285,8 @@ func (e *Env) ReplayFiles() []string {
 	for _, p := range strings.Split(e.Replay, string(os.PathListSeparator)) {
 		st, err := os.Stat(p)
 		if err != nil {
+			// a replay path that cannot be read must not look like a passed replay
+			out = append(out, p)
 			continue
 		}
 		if !st.IsDir() {
